@@ -504,6 +504,52 @@ theorem waits_after_last_failed_attempt {F : Type} (A : FloatOps F) (p : RetryPo
   rw [Retry.wrap_regenerated_from_source]
   exact wrapLoopG_all_fail A h p.exponential f env hfail hnd _ _ _ _
 
+/-- **No attempt outlives the pool timeout, and the client-visible wait is bounded** by
+`maxAttempts · timeout + Σ back-offs`. The deadline is put on the context of every single call by the
+handler closure (regenerated: `handlerIR timeout r = (true, …)` for `timeout > 0`), which `handle` wraps
+*inside* the retry loop (`handle_regenerated_from_source`); `dur k` is the backend's own answer time
+(`none` = never). Trusted: the transport returns when its context's deadline passes. -/
+theorem timeout_bounds_every_attempt_and_the_wait (p : RetryPolicy) (f : Rat)
+    (h : Nat → Option Nat → Option SPErr × Option Nat) (env : EnvG) (resp0 : Option Nat)
+    (timeout : Nat) (ht : 0 < timeout) (dur : Nat → Option Nat)
+    (hf : 0 ≤ f) (hf1 : f ≤ 1) (hj : JitterOK env) :
+    (Gen.FactsC10IRp.handlerIR (timeout : Int) resp0).1 = true ∧
+    (∀ k, attemptTime timeout dur k ≤ timeout) ∧
+    let evs := (Gen.FactsC10IR.wrapIR ratOps p f h env resp0).events
+    let n := p.maxAttempts.toNat
+    ((elapsed timeout dur evs : Int) : Rat) ≤ (n : Rat) * (timeout : Rat) +
+      (if p.exponential then 2 * (p.wait : Rat) * (1 + f) * ((3 / 2) ^ n - 1)
+       else (n : Rat) * (p.wait : Rat) * (1 + f)) := by
+  refine ⟨?_, fun k => attemptTime_le timeout dur k, ?_⟩
+  · rw [Retry.handler_regenerated_from_source]
+    simp [handlerG]; omega
+  · simp only
+    have hb := total_wait_bounded p f h env resp0 hf hf1 hj
+    simp only at hb
+    have he := elapsed_le timeout dur (Gen.FactsC10IR.wrapIR ratOps p f h env resp0).events
+    have hc : callCount (Gen.FactsC10IR.wrapIR ratOps p f h env resp0).events ≤ p.maxAttempts.toNat := by
+      rw [Retry.wrap_regenerated_from_source]
+      exact wrapLoopG_callCount ratOps h p.exponential f env _ _ _ _
+    have hmul : callCount (Gen.FactsC10IR.wrapIR ratOps p f h env resp0).events * timeout ≤
+        p.maxAttempts.toNat * timeout := Nat.mul_le_mul_right _ hc
+    have he' : ((elapsed timeout dur (Gen.FactsC10IR.wrapIR ratOps p f h env resp0).events : Int) : Rat) ≤
+        ((p.maxAttempts.toNat * timeout : Nat) : Rat) +
+          ((sleepTotal (Gen.FactsC10IR.wrapIR ratOps p f h env resp0).events : Int) : Rat) := by
+      have : elapsed timeout dur (Gen.FactsC10IR.wrapIR ratOps p f h env resp0).events ≤
+          ((p.maxAttempts.toNat * timeout : Nat) : Int) +
+            sleepTotal (Gen.FactsC10IR.wrapIR ratOps p f h env resp0).events := by
+        have : ((callCount (Gen.FactsC10IR.wrapIR ratOps p f h env resp0).events * timeout : Nat) : Int) ≤
+            ((p.maxAttempts.toNat * timeout : Nat) : Int) := by exact_mod_cast hmul
+        omega
+      exact_mod_cast this
+    have := hb.1
+    push_cast at he' ⊢
+    linarith
+
+/-- a hanging backend (never answers), timeout 10 ms, three attempts: 30 ms of attempts plus the back-offs -/
+example : elapsed 10000000 (fun _ => none) [.call 0, .sleep 0 1000, .call 1, .sleep 1 1500, .call 2, .sleep 2 2250] =
+    30004750 := by decide
+
 /-- non-vacuity: `rand.Intn ↦ 0` meets the contract; `f = 1/2` is in range -/
 example : JitterOK ⟨fun _ _ => 0, fun _ => false⟩ ∧ (0 : Rat) ≤ 1 / 2 ∧ (1 / 2 : Rat) ≤ 1 :=
   ⟨fun _ _ => ⟨le_refl _, fun h => h⟩, by norm_num, by norm_num⟩
